@@ -80,6 +80,7 @@ def check_session(inst, side, pw, ids, x, inbounds, acc, do_fresh=True, do_resto
                       "replay": dict(desc, fn="serialize"), "expected": "state", "observed": blob})
         do_restored = False
     first = True
+    got_first = None
     for inbound in inbounds:
         exp = RS.finish(rp, side, pw, w, ids, x, inbound)
         for mode in ("fresh", "restored"):
@@ -89,6 +90,7 @@ def check_session(inst, side, pw, ids, x, inbounds, acc, do_fresh=True, do_resto
                 if first:
                     t = s
                     first = False
+                    got_first = True
                 else:
                     t = inst.new(side, pw, ids, desc["x"])
                     T.do_start(t)
@@ -119,6 +121,23 @@ def check_session(inst, side, pw, ids, x, inbounds, acc, do_fresh=True, do_resto
                     acc.violation("C03/%s/%s/%s-finish-accepts-%s" % (F, side, mode, exp[1]),
                                   {"what": "finish() returns a key where the definition refuses (%s)" % exp[1],
                                    "replay": dict(desc, fn="finish", inbound=inbound, mode=mode), "expected": "raises", "observed": got})
+    # a state taken AFTER finish(): serialize() may refuse by then, but a blob it does return is a persisted session like any
+    # other - restored, it must again compute what the definition says for the original password, identities and scalar
+    if got_first is not None and inbounds and (inst.small or (x + len(pw)) % 4 == 0):
+        late = T.observe(T.do_serialize, s)
+        acc.n(transitions=1)
+        if late[0] == "ok":
+            r = T.observe(inst.restore, side, late[1])
+            if r[0] == "ok":
+                inbound = inbounds[0]
+                exp = RS.finish(rp, side, pw, w, ids, x, inbound)
+                got = T.observe(T.do_finish, r[1], inbound)
+                acc.n(transitions=2)
+                acc.seen((F, side, "state-after-finish", exp[0], got[0]))
+                if (exp[0] == "key" and got[0] == "ok" and got[1] != exp[1]) or (exp[0] != "key" and got[0] == "ok"):
+                    acc.violation("C03/%s/%s/state-after-finish" % (F, side),
+                                  {"what": "a state returned by serialize() after finish(), restored, derives a key other than the published one for the session's password, identities and scalar",
+                                   "replay": dict(desc, fn="late-state", inbound=inbound), "expected": exp[1] if exp[0] == "key" else "raises", "observed": got})
     acc.n(traces=1)
 
 
@@ -464,7 +483,7 @@ def run(tier, seed):
                 [("small", t) for t in tasks] + [("dbg", ("small", t)) for t in tasks if t[0] in ("T23", "E37")] +
                 [("dbg", ("seq", (["Params1024", "ParamsEd25519"],)))] +
                 [("style", st, ("small", t)) for st in T.STYLES for t in style_tasks] +
-                [("style", st, ("seq", (["Params1024", "ParamsEd25519"],))) for st in T.STYLES], acc)
+                [("style", st, ("seq", (["Params1024", "ParamsEd25519"],))) for st in (("password-keyword", "positional", "subclass-init", "inbound-memoryview") if quick else T.STYLES)], acc)
     core.pmerge(_ids_task, [(n, s) for n in (["T23", "E37"] if quick else ["T23", "T29", "E37", "E109"]) for s in "ABS"], acc)
     tasks_seq = [(["T23", "T23'", "T29"],), (["E37", "E37'"],), (["Params1024", "Params1024'"],), (["ParamsEd25519", "ParamsEd25519'"],)]
     # shipped
@@ -531,4 +550,8 @@ def replay(rec):
         return T.observe(lambda: type(inst.restore(side, s.serialize())).__name__)
     if r.get("mode") == "restored":
         s = inst.restore(side, s.serialize())
+    if r["fn"] == "late-state":
+        T.observe(s.serialize)
+        T.observe(T.do_finish, s, r["inbound"])
+        return T.observe(lambda: T.do_finish(inst.restore(side, T.do_serialize(s)), r["inbound"]))
     return T.observe(T.do_finish, s, r["inbound"])
